@@ -97,9 +97,11 @@ func Profile(name string) Knobs {
 		return k
 	case "guard": // C13
 		k := base
-		k.PGuard, k.PGuardFail = 0.5, 0.5
+		k.PGuard, k.PGuardFail = 0.5, 0.4
 		k.PFail, k.MaxFails = 0.05, 1
 		k.POnce = 0.25
+		k.PDefer, k.PDeferCall = 0.08, 0.12
+		k.PLoop, k.PDepLoop = 0.15, 0.1
 		return k
 	case "defer": // C14
 		k := base
@@ -349,6 +351,30 @@ func generate(rng *rand.Rand, k Knobs, profile string) *Prog {
 			}
 		}
 	}
+	// some references pass a bad value to a task whose requires/enum guard other references satisfy
+	if k.PGuard > 0 {
+		mark := func(r *Ref) {
+			t := p.Tasks[r.Target]
+			if t.Run != Always || t.GuardFails(p.Yes) != "" {
+				return
+			}
+			for _, g := range t.Guards {
+				if (g.Kind == "requires" || g.Kind == "enum") && g.Pass && rng.Float64() < 0.3 {
+					r.BadRQ = true
+				}
+			}
+		}
+		for _, t := range p.Tasks {
+			for _, d := range t.Deps {
+				mark(d)
+			}
+			for _, e := range t.Entries {
+				if e.Ref != nil && e.Kind == Call {
+					mark(e.Ref)
+				}
+			}
+		}
+	}
 	// roots
 	nr := 1 + rng.Intn(k.MaxRoots)
 	used := map[int]bool{}
@@ -456,7 +482,32 @@ func skeleton(rng *rand.Rand, profile string) *Prog {
 	}
 	sref := func(t int) *Ref { r := ref(t); r.X = x; return r }
 	viaCall := rng.Intn(2) == 0
-	switch rng.Intn(4) {
+	which := rng.Intn(4)
+	if profile == "dedup" && rng.Intn(3) == 0 {
+		which = 4
+	}
+	switch which {
+	case 4: // a when_changed task whose two variables reach only its env, called with swapped / doubled values
+		mk(3)
+		p.Tasks[1].Run, p.Tasks[1].XVia = WhenChanged, "env"
+		p.Tasks[1].Entries = probes(1)
+		pairs := []string{"one,two", "two,one", "one,one", "two,two"}
+		rng.Shuffle(len(pairs), func(i, j int) { pairs[i], pairs[j] = pairs[j], pairs[i] })
+		for k, pr := range pairs[:2+rng.Intn(3)] {
+			r := ref(1)
+			r.X = pr
+			if viaCall || k%2 == 0 {
+				p.Tasks[0].Entries = append(p.Tasks[0].Entries, &Entry{Kind: Call, Ref: r})
+			} else {
+				p.Tasks[2].Deps = append(p.Tasks[2].Deps, r)
+			}
+		}
+		p.Tasks[2].Entries = probes(1)
+		p.Tasks[0].Entries = append(p.Tasks[0].Entries, &Entry{Kind: Call, Ref: ref(2)})
+		p.Roots = []*Ref{ref(0)}
+		p.Conc = []int{0, 0, 1, 2}[rng.Intn(4)]
+		p.Yes = true
+		return p
 	case 0: // the shared task is running for branch t2 while a sibling of its first possible starter fails
 		mk(5)
 		p.Tasks[0].Deps = []*Ref{ref(1), ref(2)}
